@@ -233,7 +233,7 @@ PROPS["C16"] = {
 }
 
 PROPS["C20"] = {
-    "kani": ["c20_colors"],
+    "kani": ["c20_colors", "c05_fmtrec"],
     "verus": ["c20sep"],
     "technique": "Kani/CBMC full-domain (bit-precise f32) harnesses on the table search",
     "level_text": "Proved (Kani, every non-NaN f32): nearest(v, CUBE), nearest(v, GREYS) and nearest(v, [0,.33,.66,1]) return an arg-min of |v - table[j]| in f32 arithmetic; the tables are strictly increasing and every entry is the linear-light value of the xterm level it stands for (0,95,..,255; 8+10k) to within 1e-6 "
